@@ -25,6 +25,20 @@ Theorem C07_line_certificate :
   check line_chain norm_chain forb_line line_crit line_cert = true.
 Proof. exact line_cert_ok. Qed.
 
+(* the encoded form of EVERY string contains no raw line break and no unescaped semicolon or comma:
+   escape_char equals "normalise, then map each character" (certificate for the generated chain against
+   the specification chain), and the image of that map is well escaped *)
+Theorem C07_wellescaped : forall s, well_escaped (escape_char s) = true.
+Proof. exact escape_char_well_escaped. Qed.
+Print Assumptions C07_wellescaped.
+Theorem C07_no_raw_lf : forall s, mem_chr 10 (escape_char s) = false.
+Proof. exact escape_char_no_lf. Qed.
+Print Assumptions C07_no_raw_lf.
+Theorem C07_escape_spec : forall s, escape_char s = flat_map esc_map (norm s).
+Proof. intros s. rewrite escape_char_spec. apply perchar_map. Qed.
+Theorem C07_escape_certificate : check escape_char_chain esc_spec_chain [] esc_crit esc_cert = true.
+Proof. exact esc_cert_ok. Qed.
+
 (* outside the guards the property fails: these witnesses are the known findings *)
 Theorem C07_direct_refuted : exists s, unescape_char (escape_char s) <> norm s.
 Proof. exact text_direct_refuted. Qed.
